@@ -4,8 +4,8 @@ C14 — summary files aggregate each program-simulation's own outputs, once each
 
 Model: `Model/Summary.lean`.  `runAllChecked` is the run as the real code behaves: the batch loop of
 `_run_simulations_debug` over `batch_simulations n`, each batch written and then summarised by
-`genAll` = `gen_summary_outputs`; `none` when some summarisation call raises (a selected timeseries /
-emissions / estimate file without data rows).  `runAll` is the same loop without the check: by
+`genAll` = `gen_summary_outputs`; `none` when some summarisation call raises (for the mapper's own
+statistics: a selected estimate file without data rows).  `runAll` is the same loop without the check: by
 `guard_exact` the two agree exactly on the accepted worlds, so the theorems stated for `runAll`
 below are theorems about every run the real code completes.
 The statements quantify over every content type and statistics (`Stats κ`), every world `W`
@@ -40,7 +40,8 @@ theorem runAll_closed_form {κ : Type} (S : Stats κ) (W : Name → Nat → SimO
   exact ⟨h.ts, h.emis, h.kept⟩
 
 /-- exactly which worlds the real code rejects: the run completes iff no program-simulation wrote a
-timeseries / emissions / estimate file without data rows, and then it is `runAll` -/
+file the statistics reject (`okTs` / `okEmis` / `okEst`; for the mapper's statistics: an estimate file
+without data rows), and then it is `runAll` -/
 theorem guard_exact {κ : Type} (S : Stats κ) (W : Name → Nat → SimOut κ) (progs : List Name) (keepAll : Bool)
     (σ : Sched κ) (n : Nat) (hg : GoodProgs progs) (hσ : σ.Valid) :
     (∀ st, runAllChecked S W progs keepAll σ n = some st ↔
@@ -63,7 +64,7 @@ theorem guard_exact {κ : Type} (S : Stats κ) (W : Name → Nat → SimOut κ) 
     exact ⟨fun st => eq_comm, trivial⟩
 
 /-- C14 for all program names that do not collide with the two reserved names (a leading `kept`,
-the folder name `Logs`) and all worlds the real code accepts (every timeseries / emissions /
+the folder name `Logs`) and all worlds the real code accepts (for the mapper's statistics: every
 estimate file has at least one data row): the run completes with the closed form of both tables -/
 theorem C14_partial {κ : Type} (S : Stats κ) (W : Name → Nat → SimOut κ) (progs : List Name) (keepAll : Bool)
     (σ : Sched κ) (n : Nat) (hg : GoodProgs progs) (hσ : σ.Valid) (ha : Accepted S W progs n) :
@@ -138,20 +139,20 @@ theorem C14_counterexample_logs : ¬ C14_statement := by
   decide +kernel
 
 /-- third witness (known finding C14-zero-row-file): with the mapper's own statistics, a simulation
-whose emissions file has a header but no rows makes the summarisation raise: no summary at all -/
+whose estimate file has a header but no rows makes the summarisation raise: no summary at all -/
 theorem C14_counterexample_zero_rows : ¬ C14_statement := by
   intro h
   obtain ⟨st, hst, _⟩ := h Content (concreteStats [2023])
-    (fun _ s => { ts := .ts [(1, 1, 0, 5)], emis := .emis (if s = 1 then [] else
+    (fun _ s => { ts := .ts [(1, 1, 0, 5)], emis := .emis
                     [{ mitigated := 0, trueVol := 3, estVol := 3, repairable := true, trueRate := 1,
-                       began := some ⟨2023, 1, 1⟩, ended := some ⟨2023, 1, 2⟩, theory := some ⟨2023, 1, 4⟩ }]),
-                  est := none, rep := none })
+                       began := some ⟨2023, 1, 1⟩, ended := some ⟨2023, 1, 2⟩, theory := some ⟨2023, 1, 4⟩ }],
+                  est := if s = 1 then some (.est []) else none, rep := none })
     ["P_A".toList] false (idSched Content) 2 (by simp) (idSched_valid Content)
   have : (runAllChecked (concreteStats [2023])
-    (fun _ s => { ts := .ts [(1, 1, 0, 5)], emis := .emis (if s = 1 then [] else
+    (fun _ s => { ts := .ts [(1, 1, 0, 5)], emis := .emis
                     [{ mitigated := 0, trueVol := 3, estVol := 3, repairable := true, trueRate := 1,
-                       began := some ⟨2023, 1, 1⟩, ended := some ⟨2023, 1, 2⟩, theory := some ⟨2023, 1, 4⟩ }]),
-                  est := none, rep := none })
+                       began := some ⟨2023, 1, 1⟩, ended := some ⟨2023, 1, 2⟩, theory := some ⟨2023, 1, 4⟩ }],
+                  est := if s = 1 then some (.est []) else none, rep := none })
     ["P_A".toList] false (idSched Content) 2).isNone = true := by decide +kernel
   rw [hst] at this
   exact absurd this (by simp)
